@@ -118,6 +118,14 @@ CHECKS = {
           "removed component or '<deleted>' name is reachable from any component's metadata containers.",
           "Pure RTL designs only (no interfaces / method ports).",
           "DESIGN.md 3/C15"),
+  "C03": ("translation_validation",
+          "property-based testing (Hypothesis): differential execution of the emitted SystemVerilog by an independent IEEE-1800 subset interpreter against the PyMTL simulation (and the dataflow reference)",
+          "Every generated translatable design accepted by VerilogTranslationPass is parsed under a strict subset grammar, checked for "
+          "undeclared/duplicate identifiers and one driver per variable bit, and executed cycle by cycle; all output ports must equal the "
+          "PyMTL simulation after each evaluation and clock edge. Rejections are counted, not judged.",
+          "E2 (vf/sv) is trusted as the reading of IEEE 1800 two-state semantics on the emitted subset; calibrated on the repo's own corpus; "
+          "constant-only sub-expressions are kept out of the generator (type-checker folding, see C10).",
+          "DESIGN.md 3/C03"),
 }
 
 NOT_YET = {}
